@@ -81,7 +81,7 @@ pub fn generate(ctx: &mut Ctx) {
             }
         }
     }
-    let n = ctx.random_budget(640, 20_000, 1_000_000);
+    let n = ctx.random_budget(640, 100_000, 1_000_000);
     for i in 0..n {
         let mut rng = ctx.rng("hist", i);
         let iri = rng.chance(1, 2);
